@@ -119,8 +119,12 @@ theorem c12_release_explicit (cfg : Cfg) (now : Clock) (r : TokenReq) (idt acc :
   simp only [provedClient, Bool.or_eq_true, Bool.and_eq_true, bne_iff_ne, ne_eq, beq_iff_eq] at hp0
   have hp : (cl.secret ≠ [] ∧ r.verifier = [] ∧ pass = cl.secret) ∨
       (cl.secret = [] ∧ r.verifier ≠ [] ∧ validCodeVerifier cfg r.verifier r.code.claims = true) := by
-    rcases hp0 with ⟨⟨a, b⟩, c⟩ | ⟨⟨a, b⟩, c⟩
-    · exact Or.inl ⟨a, b, c⟩
+    rcases hp0 with ⟨a, c⟩ | ⟨⟨a, b⟩, c⟩
+    · have hv' : r.verifier = [] := by
+        by_cases e : r.verifier = []
+        · exact e
+        · exact absurd ⟨e, a⟩ hg
+      exact Or.inl ⟨a, hv', c⟩
     · exact Or.inr ⟨a, b, c⟩
   have hid : cl.id = id := by
     unfold getClient at hcl
@@ -328,6 +332,21 @@ theorem c12_authorize_flow (cfg : Cfg) (user : Str) (f : AuthzForm) (t : Int) (c
     simpa [AuthzForm.toReq] using hacc
   · intro hne
     exact ⟨cl, hcl, haud hne⟩
+
+/-- **Redeeming later, or twice.** Redemptions of the same code at different moments release ID and
+access tokens with the *same* expiry — the authorization's `auth_exp` — however late and however often
+within the code's life they happen. -/
+theorem c12_redeem_twice (cfg : Cfg) (now1 now2 : Clock) (r1 r2 : TokenReq) (i1 a1 i2 a2 : Wire)
+    (hc : r1.code.claims = r2.code.claims)
+    (h1 : token cfg now1 r1 = .ok (i1, a1)) (h2 : token cfg now2 r2 = .ok (i2, a2)) :
+    i1 .exp = i2 .exp ∧ a1 .exp = a2 .exp ∧ i1 .exp = some (.num (gInt r1.code.claims .authExp)) := by
+  obtain ⟨_, _, _, _, _, _, _, k1, _⟩ := c12_idtoken cfg now1 r1 i1 a1 h1
+  obtain ⟨_, _, _, _, _, _, _, k2, _⟩ := c12_idtoken cfg now2 r2 i2 a2 h2
+  obtain ⟨_, _, _, _, _, _, _, _, _, _, _, _, _, _, e1⟩ := token_ok h1
+  obtain ⟨_, _, _, _, _, _, _, _, _, _, _, _, _, _, e2⟩ := token_ok h2
+  refine ⟨by rw [k1, k2, hc], ?_, k1⟩
+  subst e1 e2
+  simp [emitAccess, hc]
 
 /-! ### PKCE -/
 
